@@ -1756,6 +1756,10 @@ namespace link_layer {
             }
 
             defered_ll_control_pdu_ = write_buffer{ nullptr, 0 };
+
+            // the new parameters are applied to the planned connection event. That event must not be
+            // moved to an earlier connection event anymore.
+            this->disarmable_connection_state_last_latency( 1 );
         }
 
         return result;
